@@ -538,6 +538,9 @@ def levels_oracle(case, obs):
     g = obs['grids']
     W, s, q = case['w'], case['s'], case['q']
     ny, nx = case['shape']
+    if not g:
+        bad.append(('multiscale no-levels', 'the coronagraph was built without any level (q=%g, scaling factor %g)' % (q, s)))
+        return bad
     if ny != nx:
         return bad
     res = 1.0 / (nx * case['delta'][0])              # lambda/D in focal units
